@@ -22,13 +22,29 @@ impl Env {
 }
 pub struct Shell { pub env: Env, pub u: u8 }
 impl Shell {
-    pub uninterp spec fn ifs_first(&self) -> char;           // first character of $IFS, a space when IFS is unset or empty
-    // shell/expansion.rs get_ifs_first_char: `self.ifs().chars().next().unwrap_or(' ')` (NOT verified here)
-    #[verifier::external_body] pub fn get_ifs_first_char(&self) -> (r: char) ensures r == self.ifs_first() { unimplemented!() }
+    // shell.rs env_str("IFS") (R17: Cow<str> erased to String): the value of IFS as text, None when IFS is not set
+    #[verifier::external_body]
+    pub fn env_str(&self, name: &str) -> (r: Option<String>)
+        ensures match env_str(self.env, name@) { Some(t) => r is Some && r->Some_0@ == t, None => r is None }
+    { unimplemented!() }
+    // the text field splitting and "$*" work with: $IFS, or <space><tab><newline> when IFS is not set
+    pub open spec fn ifs_text(&self) -> Seq<char> { match env_str(self.env, "IFS"@) { Some(t) => t, None => seq![' ', '\t', '\n'] } }
+    // the separator of "$*": bash manual, Special Parameters: "the first character of the IFS special variable ... If IFS is unset, the
+    // parameters are separated by spaces. If IFS is null, the parameters are joined without intervening separators."
+    pub open spec fn star_separator(&self) -> Seq<char> { if self.ifs_text().len() > 0 { seq![self.ifs_text()[0]] } else { Seq::<char>::empty() } }
 }
+// R14 stubs
+#[verifier::external_body] pub fn vx_default_ifs() -> (r: String) ensures r@ == seq![' ', '\t', '\n'] { unimplemented!() }
+#[verifier::external_body] pub fn vx_first_char(s: &String) -> (r: Option<char>) ensures r == (if s@.len() > 0 { Some(s@[0]) } else { None::<char> }) { unimplemented!() }
+#[verifier::external_body] pub fn vx_char_opt_to_string(c: Option<char>) -> (r: String) ensures r@ == (match c { Some(x) => seq![x], None => Seq::<char>::empty() }) { unimplemented!() }
 pub struct WordExpander<'a> { pub shell: &'a Shell }        // projection
 // std pieces a re-write of these statements may use
 pub assume_specification<T, P: FnOnce(&T) -> bool> [Option::<T>::filter] (o: Option<T>, p: P) -> (r: Option<T>)
     requires o is Some ==> p.requires((&o->Some_0,)),
     ensures r is Some ==> o is Some && r == o && p.ensures((&o->Some_0,), true),
         r is None ==> (o is None || p.ensures((&o->Some_0,), false));
+// what a joiner value puts between the elements, whichever type the code uses for it
+pub trait VxSep { spec fn vx_sep(&self) -> Seq<char>; }
+impl VxSep for char { open spec fn vx_sep(&self) -> Seq<char> { seq![*self] } }
+impl VxSep for String { open spec fn vx_sep(&self) -> Seq<char> { self@ } }
+impl VxSep for Option<char> { open spec fn vx_sep(&self) -> Seq<char> { match *self { Some(c) => seq![c], None => Seq::<char>::empty() } } }
